@@ -66,6 +66,30 @@ def run_case(mod, case, known, trace=False):
         res.update(status="violation", oracle=v.oracle, message=v.message, keys=v.keys)
     except Foreign as f:
         res.update(status="foreign", oracle=f.owner, message=f.message)
+    except HarnessTimeout:
+        raise
+    except Exception as e:  # noqa: BLE001
+        # An exception nobody anticipated.  If it was raised below a library
+        # frame (the library, or a dependency called by it) it is the library's
+        # behaviour under test and is attributed like any other library
+        # exception; if it was raised by harness code it is a harness bug.
+        from .core import owner_of_exception, short_exc
+
+        tb = traceback.extract_tb(e.__traceback__)
+        root = os.path.abspath(os.environ.get("JSL_REPO", "/repo"))
+        last_lib = max((i for i, f in enumerate(tb) if os.path.abspath(f.filename).startswith(root + os.sep)), default=None)
+        last_sim = max((i for i, f in enumerate(tb) if os.path.abspath(f.filename).startswith(VERIF + os.sep)), default=-1)
+        if last_lib is None or last_lib < last_sim:
+            raise
+        owner = owner_of_exception(e, mod.PROP)
+        where = f"{os.path.relpath(tb[last_lib].filename, root)}:{tb[last_lib].name}"
+        if owner == mod.PROP:
+            try:
+                ctx.fail("library_call_raised", f"unanticipated {short_exc(e)} raised in {where}", exc=type(e).__name__)
+            except Violation as v:
+                res.update(status="violation", oracle=v.oracle, message=v.message, keys=v.keys)
+        else:
+            res.update(status="foreign", oracle=owner, message=f"{short_exc(e)} in {where}")
     finally:
         signal.alarm(0)
         signal.signal(signal.SIGALRM, old)
